@@ -7,10 +7,20 @@ From SQLair.Proofs Require Import BindFacts InsertProofs BindInputsProofs SortFa
   StructFieldsProofs BindTypesFacts ExampleData.
 
 (* The alias generated for output number n identifies n (markerIndex is a left
-   inverse of markerName), so aliases of distinct outputs are distinct. *)
-Theorem C05_alias_identifies : forall n, marker_index (marker_name n) = Some n.
+   inverse of markerName) for every n a Go int can hold (max_int = 2^63-1: the
+   output counter is an int, and strconv.Atoi reports a range error beyond it),
+   so aliases of distinct outputs are distinct. *)
+Theorem C05_alias_identifies : forall n,
+  (N.of_nat n <= max_int)%N -> marker_index (marker_name n) = Some n.
 Proof. exact marker_roundtrip. Qed.
 Print Assumptions C05_alias_identifies.
+
+(* beyond it the name is not an alias at all: a result column with such a name
+   is a foreign column (and can never index the outputs) *)
+Theorem C05_alias_range : forall n,
+  (max_int < N.of_nat n)%N -> marker_index (marker_name n) = None.
+Proof. exact marker_overflow. Qed.
+Print Assumptions C05_alias_range.
 
 Theorem C05_alias_unique : forall a b, marker_name a = marker_name b -> a = b.
 Proof. exact marker_name_inj. Qed.
